@@ -163,7 +163,20 @@ fn sna_boundaries(len: usize) -> Vec<usize> {
 }
 
 /// Runs one case against the real code and the model; returns every disagreement.
-pub fn check_case(cx: &mut Ctx, case: &Case, mut rep: Option<&mut Report>) -> Vec<Finding> {
+pub fn check_case(cx: &mut Ctx, case: &Case, rep: Option<&mut Report>) -> Vec<Finding> {
+    let (mut out, setup) = check_case_inner(cx, case, rep);
+    // a source machine that is not in the state the model was told (only its paging registers differ) still goes
+    // through the round trip: if the spec is violated there, that is the finding; otherwise the setup mismatch is
+    if !out.iter().any(|f| f.kind == Kind::SpecViolated) && !setup.is_empty() {
+        return setup;
+    }
+    if out.is_empty() {
+        out = setup;
+    }
+    out
+}
+
+fn check_case_inner(cx: &mut Ctx, case: &Case, mut rep: Option<&mut Report>) -> (Vec<Finding>, Vec<Finding>) {
     let mut out = vec![];
     let m128 = case.src.m128;
     let model = &mut cx.model;
@@ -174,8 +187,9 @@ pub fn check_case(cx: &mut Ctx, case: &Case, mut rep: Option<&mut Report>) -> Ve
     let o0 = observe(&mut e, m128);
     let m0 = kv_of(&model.ask("obs 0"));
     compare_state("setup", &o0, Some(&m0), None, &STATE_KEYS, &mut out);
-    if !out.is_empty() {
-        return out;
+    let setup: Vec<Finding> = std::mem::take(&mut out);
+    if setup.iter().any(|f| f.group != "paging") {
+        return (vec![], setup);
     }
     if let Some(r) = rep.as_deref_mut() {
         r.eval();
@@ -185,7 +199,7 @@ pub fn check_case(cx: &mut Ctx, case: &Case, mut rep: Option<&mut Report>) -> Ve
         Ok(b) => b,
         Err(o) => {
             out.push(Finding { phase: "save", group: "outcome".into(), kind: Kind::SpecViolated, got: o.text(), want: "ok".into() });
-            return out;
+            return (out, setup);
         }
     };
     let ans = model.ask("save 0");
@@ -407,7 +421,7 @@ pub fn check_case(cx: &mut Ctx, case: &Case, mut rep: Option<&mut Report>) -> Ve
             }
         }
     }
-    out
+    (out, setup)
 }
 
 /// features of a case that differ from the all-default case (for the stable key)
